@@ -145,3 +145,39 @@ def replay_jaxfield(sp):
     req = np.asarray(base(a, ov))
     return dict(confirmed=bool(np.max(np.abs(got - req)) > 1e-12), observed=got.tolist(), required=req.tolist(),
                 input="JaxDiscreteField([[0.3,1.7]]).__%s__(%s)" % (name, form))
+
+
+def replay_hash_args(sp):
+    import skfem as fem
+    m = fem.MeshQuad.init_tensor(np.array([0., .4, 1.]), np.array([0., .3, 1.]))
+    X = np.array([[.2, .7], [.3, .4]])
+    used = m._mapping()
+    used.detDF(X, np.array([1], dtype=np.int64))
+    fresh = fem.MeshQuad(m.p.copy(), m.t.copy())._mapping().detDF(X, np.array([1, 0], dtype=np.int32))
+    try:
+        got = used.detDF(X, np.array([1, 0], dtype=np.int32))
+        bad = got.shape != fresh.shape or not np.array_equal(got, fresh)
+        obs = "shape %s vs %s" % (got.shape, fresh.shape)
+    except Exception as e:
+        bad, obs = True, "raised %s" % e
+    return dict(confirmed=bool(bad), observed=obs, required="result of a fresh mapping", input="detDF(X, tind=int64[1]) then detDF(X, tind=int32[1,0]) on one MappingIsoparametric")
+
+
+def replay_element_global(sp):
+    import skfem as fem
+    name = sp["name"]
+    mk = getattr(fem, name)
+    if "Line" in name:
+        m1, m2 = fem.MeshLine(np.linspace(0, 1, 3)), fem.MeshLine(np.linspace(0, 1, 6))
+    elif "Quad" in name:
+        m1, m2 = fem.MeshQuad().refined(1), fem.MeshQuad().refined(2)
+    else:
+        m1, m2 = fem.MeshTri().refined(1), fem.MeshTri.init_sqsymmetric().refined(2)
+    e = mk()
+    try:
+        fem.Basis(m1, e)
+        b2, b3 = fem.Basis(m2, e), fem.Basis(m2, mk())
+        err = max(float(np.max(np.abs(np.asarray(x[0]) - np.asarray(y[0])))) for x, y in zip(b2.basis, b3.basis))
+        return dict(confirmed=bool(err > 1e-8), observed="max difference %.3e" % err, input="%s object used on two meshes" % name)
+    except Exception as ex:
+        return dict(confirmed=True, observed="raised %s: %s" % (type(ex).__name__, ex), input="%s object used on two meshes" % name)
